@@ -524,6 +524,7 @@ class CoreInterp(sym.Interp):
         if inv is None:
             raise Unsupported('while with symbolic condition and no invariant in the contract')
         selfobj = frame.locals.get('self')
+        tok = self.spec.loop_begin(self, selfobj)
         # 1. invariant at entry
         for label, g in inv['inv'](self, selfobj, frame):
             self.oblige(f'loop@{s.lineno}/entry/{label}', g)
@@ -552,6 +553,7 @@ class CoreInterp(sym.Interp):
                 self.oblige(f'loop@{s.lineno}/variant-decreases', z3.And(dec, *[x >= 0 for x in a0]))
             raise LoopIterationDone()
         # loop exit: continue after the loop
+        self.spec.loop_end(self, tok)
         return None
 
     def binop(self, op, a, b, node):
@@ -584,6 +586,7 @@ class CoreInterp(sym.Interp):
         R = bag.snap()
         rkey = 'R' if bag.esort == OBJ else 'Rk'
         self.ghost[rkey] = R
+        tok = self.spec.loop_begin(self, selfobj)
         for label, g in inv['inv'](self, selfobj, frame):
             self.oblige(f'loop@{s.lineno}/entry/{label}', g)
         self.spec.havoc(self, selfobj, inv.get('modifies', []), frame, inv.get('locals', []))
@@ -608,11 +611,13 @@ class CoreInterp(sym.Interp):
                 # leaving the loop early: continue after it with the current state (R is dropped)
                 self.ghost[rkey] = ZBag(bag.esort, name='R')
                 self.ghost['broke'] = True
+                self.spec.loop_end(self, tok)
                 return None
             for label, g in inv['inv'](self, selfobj, frame):
                 self.oblige(f'loop@{s.lineno}/preserve/{label}', g)
             raise LoopIterationDone()
         self.ghost[rkey] = ZBag(bag.esort, name='R')
+        self.spec.loop_end(self, tok)
         return None
 
     def iterate_keys(self, m, s, frame, items=False):
@@ -685,6 +690,12 @@ class Spec(object):
         return None
 
     def on_yield(self, it, v, node, frame):
+        pass
+
+    def loop_begin(self, it, selfobj):
+        return None
+
+    def loop_end(self, it, tok):
         pass
 
     def sym_attr_call(self, it, obj, attr, args, node):
